@@ -1075,6 +1075,82 @@ def k_typename_search(R, F, S):
     return out
 
 
+def k_typename_presence(R, F, S):
+    """validation::validate_typename_presence(query) on every fragment graph (F fragments x S top-level selections:
+    `__typename`, a spread, or a leaf field; every fragment's type is symbolic among the object, the interface and the
+    union): Ok => every fragment on an abstract type selects `__typename` *on that type*, i.e. directly or through
+    spreads of fragments defined on the same type (least fixed point; a fragment on another type only yields
+    `__typename` for that type's values)."""
+    f = R.fn('validate_typename_presence')
+    out = []
+    holder = {}
+
+    def setup(st, B):
+        q, g = fragment_graph(B, st, F, S, f'tp{F}{S}_')
+        holder['g'] = g
+        schema, sv = abstract_schema(B, st, f'tp{F}{S}_', members=[True, True])
+        tid_s = B.variant('TypeId', 'Scalar', B.newtype('ScalarId', bv(0, 64)))
+        leaf = B.struct('StoredField', name=StrV('leaf'), type=B.struct('StoredFieldType', id=tid_s, qualifiers=VecV(())),
+                        parent=B.variant('StoredFieldParent', 'Object', B.newtype('ObjectId', bv(0, 32))), deprecation=none())
+        names = R.L.structs['Schema']
+        fs = list(schema.fields)
+        fs[names.index('stored_fields')] = VecV([leaf])
+        schema = Agg(None, fs, 'Schema')
+        bq = B.struct('BoundQuery', query=B.cell(q), schema=B.cell(schema))
+        R.vm.push_call(st, f, [B.cell(bq)], None, None)
+    outs, _ = R.explore(f'validate_typename_presence(F={F},S={S})', setup)
+    g = holder.get('g')
+    if not outs:
+        return out
+    obj = g['tkinds'].index('Object')
+    # reference: least fixed point of "selects __typename on the type P" for each pair (fragment, P = on-kind code)
+    kinds_ = [g['tkinds'].index(x) for x in ('Object', 'Interface', 'Union')]
+
+    def lfp(P):
+        C = [z3.Or(*[g['sel_kind'][a][s_] == g['i_typename'] for s_ in range(S)]) for a in range(F)]
+        for _ in range(F):
+            C = [z3.Or(C[a], *[z3.And(g['sel_kind'][a][s_] == g['i_spread'], g['sel_tgt'][a][s_] == b, g['on_kind'][b] == P, C[b])
+                               for s_ in range(S) for b in range(F)]) for a in range(F)]
+        return C
+    ok_ref = []
+    for a in range(F):
+        for P in kinds_:
+            if P == obj:
+                continue
+            ok_ref.append(z3.Implies(g['on_kind'][a] == P, lfp(P)[a]))
+    want = z3.And(*ok_ref)
+    for o in outs:
+        if o.kind != 'return':
+            if o.kind in ('loop', 'limit'):
+                m = R.vm.model(o.state)
+                out.append(dict(kernel='typename_presence', prop='C17', what=o.msg, fragments=fragments_of_model(m, g) if m else None))
+            else:
+                m = R.prove('typename_presence', o, z3.BoolVal(False), 'no panic')
+                if m is not None:
+                    out.append(dict(kernel='typename_presence', prop='C17', what=f'{o.kind}: {o.msg}', fragments=fragments_of_model(m, g)))
+            continue
+        v = o.value
+        if isinstance(v, SymEnum):
+            R.inconclusive.append('validate_typename_presence: symbolic Result')
+            continue
+        if v.variant == 0:
+            m = R.prove('typename_presence', o, want, 'accepted => every abstract fragment selects __typename on its own type')
+            if m is not None:
+                # prefer a witness without spread cycles (spreads only go to later fragments): it replays as a plain document
+                fwd = [z3.Implies(g['sel_kind'][a][s_] == g['i_spread'], z3.UGT(g['sel_tgt'][a][s_], a)) for a in range(F) for s_ in range(S)]
+                m2 = R.vm.model(o.state, extra=[z3.Not(want)] + fwd)
+                m = m2 if m2 is not None else m
+                frs = fragments_of_model(m, g)
+                bad = [a for a in range(F) if not z3.is_true(m.eval(z3.And(*[z3.Implies(g['on_kind'][a] == P, lfp(P)[a]) for P in kinds_ if P != obj]), model_completion=True))]
+                out.append(dict(kernel='typename_presence', prop='C06', what='a fragment on an interface / union that does not select `__typename` on that type is accepted',
+                                fragments=frs, target=f'F{bad[0] if bad else 0}'))
+        else:
+            R.obligations += 1
+            R.discharged += 1
+    R.sample(dict(kernel='typename_presence', fragments=F, selections_per_fragment=S, paths=len(outs)))
+    return out
+
+
 def one_field_schema(B):
     tid = B.variant('TypeId', 'Scalar', B.newtype('ScalarId', bv(0, 64)))
     fld = B.struct('StoredField', name=StrV('leaf'), type=B.struct('StoredFieldType', id=tid, qualifiers=VecV(())),
@@ -2017,6 +2093,10 @@ def k_object_selection(R, S):
     cond = [z3.BitVec(f'os_c{s}', 8) for s in range(S)]        # inline fragment: 0 -> o0, 2 -> I0, 3 -> U0
     st_fr = [z3.BitVec(f'os_f{s}', 8) for s in range(S)]       # spread: fragment 1 / 2
     fr_on = [z3.BitVec(f'os_on{k}', 8) for k in (1, 2)]        # F1 / F2: 0 -> o0, 2 -> I0, 3 -> U0
+    # what the inline fragment contains: 0 -> the leaf field, 1 -> a nested inline fragment `... on o0 { leaf }`,
+    # 2 -> a spread of F1 / F2 (that fragment is then not spread at the top level)
+    ck = [z3.BitVec(f'os_ck{s}', 8) for s in range(S)]
+    cfr = [z3.BitVec(f'os_cf{s}', 8) for s in range(S)]
     ON = ABSTRACT_OBJ_NAMES
 
     def ty_of(code, B):
@@ -2037,13 +2117,16 @@ def k_object_selection(R, S):
         applies = lambda code: z3.Or(code == 0, z3.And(code == 2, sv['impl'][0]), code == 3)     # o0 is a member of U0 in this scenario
         for s in range(S):
             st.pc += [z3.Or(sk[s] == i_field, sk[s] == i_inline, sk[s] == i_spread, sk[s] == i_typename), z3.Or(st_fr[s] == 1, st_fr[s] == 2)]
+            st.pc += [z3.ULT(ck[s], 3), z3.Or(cfr[s] == 1, cfr[s] == 2)]
+            st.pc.append(z3.Implies(z3.And(sk[s] == i_inline, ck[s] == 2), z3.And(*[z3.Implies(cfr[s] == k + 1, applies(fr_on[k])) for k in range(2)])))
             st.pc.append(z3.Implies(sk[s] == i_inline, applies(cond[s])))
             st.pc.append(z3.Implies(sk[s] == i_spread, z3.And(*[z3.Implies(st_fr[s] == k + 1, applies(fr_on[k])) for k in range(2)])))
         # the response key `leaf` is produced by at most one selection (merging of equal keys is not what is claimed here)
-        st.pc.append(z3.Sum([z3.If(z3.Or(sk[s] == i_field, sk[s] == i_inline), 1, 0) for s in range(S)]) <= 1)
-        for a in range(S):
-            for b_ in range(a + 1, S):
-                st.pc.append(z3.Not(z3.And(sk[a] == i_spread, sk[b_] == i_spread, st_fr[a] == st_fr[b_])))
+        st.pc.append(z3.Sum([z3.If(z3.Or(sk[s] == i_field, z3.And(sk[s] == i_inline, ck[s] != 2)), 1, 0) for s in range(S)]) <= 1)
+        # each named fragment is spread at most once (top level or inside an inline fragment)
+        spread_of = lambda s_, k: z3.Or(z3.And(sk[s_] == i_spread, st_fr[s_] == k), z3.And(sk[s_] == i_inline, ck[s_] == 2, cfr[s_] == k))
+        for k in (1, 2):
+            st.pc.append(z3.Sum([z3.If(spread_of(s_, k), 1, 0) for s_ in range(S)]) <= 1)
         for k in range(2):
             st.pc.append(z3.Or(fr_on[k] == 0, fr_on[k] == 2, fr_on[k] == 3))
         sid = lambda n: B.newtype('SelectionId', bv(n, 32))
@@ -2051,13 +2134,17 @@ def k_object_selection(R, S):
         mk_leaf = lambda: B.variant('Selection', 'Field', B.struct('SelectedField', alias=none(), field_id=B.newtype('StoredFieldId', bv(0, 64)), selection_set=VecV(())))
         for s in range(S):
             me = len(selections)
-            child = me + 1
+            child, grandchild = me + 1, me + 2
             leaf_sel = B.struct('SelectedField', alias=none(), field_id=B.newtype('StoredFieldId', bv(0, 64)), selection_set=VecV(()))
             inline = B.struct('InlineFragment', type_id=ty_of(cond[s], B), selection_set=VecV([sid(child)]))
             selections.append(SymEnum(sk[s], {i_field: (leaf_sel,), i_inline: (inline,), i_spread: (B.newtype('ResolvedFragmentId', z3.ZeroExt(24, st_fr[s])),), i_typename: ()}))
             parents.append((sid(me), B.variant('SelectionParent', 'Fragment', B.newtype('ResolvedFragmentId', bv(0, 32)))))
-            selections.append(mk_leaf())
+            nested = B.struct('InlineFragment', type_id=B.variant('TypeId', 'Object', B.newtype('ObjectId', bv(0, 32))), selection_set=VecV([sid(grandchild)]))
+            child_kind = z3.If(ck[s] == 0, bv(i_field, 8), z3.If(ck[s] == 1, bv(i_inline, 8), bv(i_spread, 8)))
+            selections.append(SymEnum(child_kind, {i_field: (leaf_sel,), i_inline: (nested,), i_spread: (B.newtype('ResolvedFragmentId', z3.ZeroExt(24, cfr[s])),)}))
             parents.append((sid(child), B.variant('SelectionParent', 'InlineFragment', sid(me))))
+            selections.append(mk_leaf())
+            parents.append((sid(grandchild), B.variant('SelectionParent', 'InlineFragment', sid(child))))
             top.append(sid(me))
         frags = [B.struct('ResolvedFragment', name=StrV('F0'), on=B.variant('TypeId', 'Object', B.newtype('ObjectId', bv(0, 32))), selection_set=VecV(top))]
         for k in range(2):
@@ -2077,7 +2164,8 @@ def k_object_selection(R, S):
         sels = []
         for s in range(S):
             k = ev(sk[s]).as_long()
-            sels.append('__typename' if k == i_typename else 'leaf' if k == i_field else f'... on {names_[ev(cond[s]).as_long()]} {{ leaf }}' if k == i_inline else f'...F{ev(st_fr[s]).as_long()}')
+            inner = ['leaf', f'... on {ON[0]} {{ leaf }}', f'...F{ev(cfr[s]).as_long()}'][ev(ck[s]).as_long()]
+            sels.append('__typename' if k == i_typename else 'leaf' if k == i_field else f'... on {names_[ev(cond[s]).as_long()]} {{ {inner} }}' if k == i_inline else f'...F{ev(st_fr[s]).as_long()}')
         return dict(parent='object', selections=sels, F1_on=names_[ev(fr_on[0]).as_long()], F2_on=names_[ev(fr_on[1]).as_long()],
                     implements=[z3.is_true(ev(x)) for x in sv['impl']], members=[True, True], obj_names=list(ON))
     for o in outs:
@@ -2096,12 +2184,12 @@ def k_object_selection(R, S):
         al = [a for a in aliases if z3.is_true(simp(a.fields[TA.index('struct_id')].fields[0] == bv(0, 32)))]
         n_flat = sum(1 for x in fl if z3.is_true(simp(x.fields[EF.index('flatten')])))
         n_plain = len(fl) - n_flat
-        n_leaf = z3.Sum([z3.If(z3.Or(sk[s] == i_field, sk[s] == i_inline), 1, 0) for s in range(S)])
+        n_leaf = z3.Sum([z3.If(z3.Or(sk[s] == i_field, z3.And(sk[s] == i_inline, ck[s] != 2)), 1, 0) for s in range(S)])
         n_inline = z3.Sum([z3.If(sk[s] == i_inline, 1, 0) for s in range(S)])
-        n_spread = z3.Sum([z3.If(sk[s] == i_spread, 1, 0) for s in range(S)])
+        n_spread = z3.Sum([z3.If(z3.Or(sk[s] == i_spread, z3.And(sk[s] == i_inline, ck[s] == 2)), 1, 0) for s in range(S)])
         claims = {}
         if al:
-            claims['C01:object-alias-only-for-single-spread'] = z3.And(n_spread == 1, n_leaf == 0)
+            claims['C01:object-alias-only-for-single-spread'] = z3.And(n_spread == 1, n_leaf == 0, n_inline == 0)
         else:
             claims['C01:object-parent-inline-fragment-fields-kept'] = z3.Implies(n_inline > 0, n_leaf == n_plain)
             claims['C01:object-parent-every-spread-kept'] = n_spread == n_flat
